@@ -329,7 +329,7 @@ func timerGen(c *ctx) {
 	r := &timerRun{c: c, sinceIrq: 99, seen: map[int]bool{}}
 	r.newTimer()
 	starts := timerStarts()
-	alphabet := []string{"t", "wdiv", "wtima ff", "wtima 31", "wtma ff", "wtma 31", "wtac 05", "wtac 06", "wtac 00"}
+	alphabet := []string{"t", "wdiv", "wtima ff", "wtima 31", "wtima 00", "wtma ff", "wtma 31", "wtac 05", "wtac 06", "wtac 00"}
 	// quick: all words of length 4 from every start, length 5 from every fourth start;
 	// thorough: length 5 from every start, length 6 from every third start, one more letter.
 	freeLen, guestLen, deepEvery := 4, 4, 4
